@@ -145,6 +145,10 @@ func (s *Stream) Token() (interface{}, error) {
 			s.cursor++
 		case '-', '0', '1', '2', '3', '4', '5', '6', '7', '8', '9':
 			bytes := floatBytes(s)
+			if s.readErr != nil && s.char() == nul {
+				// the reader failed while the number was being read: more digits might have followed
+				return nil, s.readErr
+			}
 			str := *(*string)(unsafe.Pointer(&bytes))
 			if s.UseNumber {
 				return json.Number(str), nil
